@@ -1415,3 +1415,17 @@ def _np_random_randint(interp, args, kwargs, node, frame):
 @api("global_rng_draws")
 def _global_rng_draws(interp, args, kwargs, node, frame):
     return interp.run.__dict__.get("global_rng_draws", 0)
+
+
+assumed("os.environ", "os.environ.get(name, default) returns either the string '1' or the default: both are explored (the only environment read in scope is the verification guard)")
+
+
+@lib("os.environ.get")
+def _os_environ_get(interp, args, kwargs, node, frame):
+    use(interp, "os.environ")
+    name = args[0]
+    default = args[1] if len(args) > 1 else kwargs.get("default")
+    b = interp.run.fresh_bool(f"env_{name}_is_1")
+    if interp.run.branch(b):
+        return "1"
+    return default
